@@ -321,6 +321,22 @@ func genC19(r *hx.Rng, tier string, w io.Writer) {
 		p("export pass=%s", hx.Hex(wrongOf(r, b.pass)[0]))
 		p("import pass=%s", hx.Hex(b.pass))
 		load(b.pass)
+		// the same key file re-indented by hand (longer, same content): an import over it must replace it completely,
+		// not leave the tail of the old file behind the new one
+		var ind bytes.Buffer
+		if json.Indent(&ind, b.file, "", "      ") == nil {
+			ind.WriteString("\n\n")
+			p("reset")
+			p("%s", putLine(ind.Bytes(), b, false))
+			load(b.pass)
+			p("export pass=%s", hx.Hex(b.pass))
+			p("import pass=%s", hx.Hex(b.pass))
+			load(b.pass)
+			p("export pass=%s", hx.Hex(b.pass))
+			np := r.Bytes(1 + r.Intn(12))
+			p("import pass=%s", hx.Hex(np)) // passphrase rotation over the (now compact) file
+			load(np)
+		}
 	}
 
 	// ---- 3. the repaired defects (a)-(c) (regression inputs: each must now be an error) and the
